@@ -629,6 +629,9 @@ class Stage:
         def action(state, der):
             if state not in self.states and state not in self.qstates:
                 raise Exception("You used set_der on a non-state: " + str(state))
+            # A scalar right-hand side is repeated to fit the shape of a vector/matrix-valued state
+            if MX(der).is_scalar() and not state.is_scalar():
+                der = ca.repmat(MX(der), state.shape[0], state.shape[1])
             self._state_der[state] = der
             self._scale_der[state] = self._parse_scale(state, scale)
         for_all_primitives(state, der, action, "First argument to set_der must be a state or a simple concatenation of states")
